@@ -161,6 +161,12 @@ impl<'a> PrettyPrinter<'a> {
         }
 
         let repr = collect_markup_repr(markup);
+        // A backslash at the end of a heading must not touch what follows: `\]` is an escape.
+        let keeps_end_space = scope == MarkupScope::Item
+            && repr.end_bound == Boundary::SpaceOrBreak
+            && (repr.lines.last())
+                .and_then(|line| line.nodes.last())
+                .is_some_and(|node| node.kind() == SyntaxKind::Linebreak);
 
         let mut doc = self.arena.nil();
         for MarkupLine {
@@ -237,7 +243,12 @@ impl<'a> PrettyPrinter<'a> {
                 Boundary::Break | Boundary::WeakBreak => self.arena.hardline(),
             }
         };
-        doc.enclose(get_delim(repr.start_bound), get_delim(repr.end_bound))
+        let end_delim = if keeps_end_space {
+            self.arena.space()
+        } else {
+            get_delim(repr.end_bound)
+        };
+        doc.enclose(get_delim(repr.start_bound), end_delim)
     }
 }
 
@@ -347,7 +358,8 @@ fn collect_markup_repr(markup: Markup<'_>) -> MarkupRepr {
                 repr.end_bound = Boundary::from_space(last.text());
                 last_line.nodes.pop();
             } else {
-                if is_block_elem(last) {
+                // A backslash at the end of the item must not touch what follows: `\]` is an escape.
+                if is_block_elem(last) && !ends_with_backslash(last) {
                     repr.end_bound = repr.end_bound.strip_space();
                 }
                 break;
@@ -386,6 +398,14 @@ fn collect_markup_repr(markup: Markup<'_>) -> MarkupRepr {
     }
 
     repr
+}
+
+fn ends_with_backslash(node: &SyntaxNode) -> bool {
+    let mut node = node;
+    while let Some(last) = node.children().last() {
+        node = last;
+    }
+    node.kind() == SyntaxKind::Linebreak
 }
 
 fn is_block_elem(it: &'_ SyntaxNode) -> bool {
